@@ -3,7 +3,7 @@
 From Coq Require Import List NArith ZArith Bool Arith Lia Permutation.
 From SK Require Import lib.IRSortKeys lib.IRCore lib.IRSearch model.C18_Model
   proof.C18_Order proof.C18_Spec proof.C18_Graph proof.C18_Canon proof.C18_Equiv proof.C18_Label proof.C18_Aut
-  proof.C18_Invariant proof.C18_Wf proof.C18_Count proof.C18_View proof.C18_Refine.
+  proof.C18_Invariant proof.C18_Wf proof.C18_Count proof.C18_View proof.C18_Refine proof.C18_NetBip proof.C18_Net proof.C18_Orbits.
 From SK Require Import lib.C18_IRValid.
 Import ListNotations.
 
@@ -175,3 +175,36 @@ Proof. vm_compute. auto. Qed.
 Example ex_refine_stable : vpart (node_ids g1) (init_part g1) /\
   length (init_part g1) = 2 /\ length (refine IRInst.lexleb (sig g1) 6 (init_part g1)) = 3.
 Proof. split; [apply init_part_vpart; apply wf_g1|]. vm_compute. auto. Qed.
+
+(** C18_net_canon_invariant_bip: n2 is n1 with species renamed, reactions re-ordered and reaction ids regenerated *)
+Lemma nodup_N (l : list N) : nodupb N.eqb l = true -> NoDup l.
+Proof. apply (nodupb_spec N.eqb N.eqb_eq). Qed.
+Lemma nodup_NN (l : list (N * N)) : nodupb pairN_eqb l = true -> NoDup l.
+Proof. apply (nodupb_spec pairN_eqb pairN_eqb_spec). Qed.
+Lemma closed_n (n : net) : forallb (fun r => forallb (fun sc => memN (fst sc) (nspecies n)) (lhs r ++ rhs r)) (nrxns n) = true -> net_closed n.
+Proof.
+  intros H r Hr sc Hsc. rewrite forallb_forall in H. specialize (H r Hr). rewrite forallb_forall in H.
+  apply memN_spec. apply H. exact Hsc.
+Qed.
+Example ex_net_ok : net_ok true n1 /\ net_ok true n2.
+Proof.
+  split; (split; [apply nodup_N; vm_compute; reflexivity|split; [apply closed_n; vm_compute; reflexivity|apply nodup_NN; vm_compute; reflexivity]]).
+Qed.
+Example ex_net_variant : net_variant fx n1 n2.
+Proof.
+  split; [vm_compute; apply Permutation_refl|].
+  exists [Rxn 1%N [(4%N, 1%Z)] [(2%N, 1%Z)]; Rxn 0%N [(3%N, 1%Z)] [(2%N, 1%Z)]]. split.
+  - repeat constructor.
+  - apply perm_swap.
+Qed.
+Example ex_net_invariant : lab2 = lab1 /\ geq (canon_graph (view true true n2) p2) (canon_graph (view true true n1) p1).
+Proof.
+  apply (net_canon_invariant_bip true fx n1 n2 lab1 p1 lab2 p2 (proj1 ex_net_ok) (proj2 ex_net_ok) (proj1 ex_view_wf) ex_net_variant).
+  - intros x y _ _. apply fx_inj.
+  - exact best1.
+  - exact best2.
+Qed.
+
+(** C18_vf2_orbits: the orbit classes of the example: {A,B}, {C}, {r_1,r_2} *)
+Example ex_vf2_orbits : conn (uf_orbits (node_ids g1) (auts g1)) 0%N 1%N /\ length (uf_orbits (node_ids g1) (auts g1)) = 3.
+Proof. split; [exists [1;0]%N; vm_compute; auto|vm_compute; reflexivity]. Qed.
